@@ -973,7 +973,7 @@ def gen_graph(rng, flavour, backend):
     auto = flavour == "auto"
     n = rng.randint(2, 7 if flavour == "flow" else 6)
     ns = []
-    mac = list(MACROS)
+    mac = [m for m in MACROS if m != "MUnused"] * 3 + ["MUnused"]
     for i in range(n):
         r = rng.random()
         lab = f"n{i}"
@@ -1029,7 +1029,7 @@ def gen_rt(rng):
     backend = rng.choice(["pickle", "pickle", "cloudpickle", "file", "file"])
     r = rng.random()
     if r < 0.08:
-        t = rng.choice(list(MACROS))
+        t = rng.choice([m for m in MACROS if m != "MUnused"] * 3 + ["MUnused"])
         ins = [{"init": rng.randint(0, 9), "conns": []} for _ in MACRO_INS[t]]
         g = {"root": "macro", "auto": True, "nodes": [{"l": "m", "t": t, "k": 0, "ins": ins}]}
     elif r < 0.12:
@@ -1092,7 +1092,7 @@ def gen_rt(rng):
 def generate(ctx):
     rng = ctx.rng
     cases, seen = [], set()
-    n_rt, n_b = ctx.n(420, 4000), ctx.n(120, 1200)
+    n_rt, n_b = ctx.n(800, 6000), ctx.n(200, 1500)
     while len(cases) < n_rt:
         c = gen_rt(rng)
         k = _ck(c)
